@@ -15,7 +15,8 @@ def CodesepInsensitive (env : Env) : Prop :=
 /-- `RawSignatureHash` returns a digest for every script code of at most 10 000 bytes that tokenises
     and every hash type byte (it can only raise
     CScriptInvalidError from its `FindAndDelete`) — true of the real one for a transaction in wire
-    range and a non-negative input index (Props/C06Concrete.lean) -/
+    range and an input index that is non-negative or wraps around `vin` and `vout` (`IdxOK`,
+    Props/C06Concrete.lean `sigHashOK_real`) -/
 def SigHashOK (c : Ctx) : Prop :=
   ∀ script ht, script.length ≤ MAX_SCRIPT_SIZE → ht < 256 → (rawIter script).2 = none →
     ∃ d, c.sigHash script ht = .ok d
